@@ -33,7 +33,7 @@ def model_check(report, name, consts, workers=16, timeout=3000, liveness=False):
     return res
 
 
-def emit(report, name, consts, simulate=None, depth=None, seed=None, timeout=3000, workers=16):
+def emit(report, name, consts, simulate=None, depth=None, seed=None, timeout=3000, workers=16, limit=None):
     """Record-mode run: returns (histories, obs lookup)."""
     c = dict(BASE)
     c.update(consts)
@@ -55,7 +55,12 @@ def emit(report, name, consts, simulate=None, depth=None, seed=None, timeout=300
         h = json.loads(k)
         if h:
             prefixes.add(RA.prefix_key(h[:-1]))
-    maximal = [json.loads(k) for k in table if k not in prefixes]
+    mkeys = [k for k in table if k not in prefixes]
+    del prefixes
+    if limit is not None and len(mkeys) > limit:
+        import random
+        mkeys = random.Random(seed or 0).sample(mkeys, limit)     # sampled BEFORE parsing: memory stays bounded
+    maximal = [json.loads(k) for k in mkeys]
     import sys
     print("[emit %s] %d behaviours (%d observations), TLC %.1fs" % (name, len(maximal), len(table), res.wall), file=sys.stderr)
     return maximal, table, c
